@@ -21,6 +21,24 @@ type FuncVC struct {
 
 // verifyFunction generates the obligations of one function under contract.
 func verifyFunction(ld *Loaded, sp *Specs, key string) (out *FuncVC) {
+	fptrSites = nil
+	for pass := 0; ; pass++ {
+		fptrNew = false
+		out = verifyFunctionOnce(ld, sp, key)
+		if !fptrNew || pass >= 4 {
+			break
+		}
+	}
+	if fptrNew {
+		out.Report.Error = "interior-pointer sites did not reach a fixed point"
+	}
+	for _, s := range fptrSites {
+		addUnique(&out.Report.ContractUsed, fmt.Sprintf("interior pointer site: field at leaf %d of %s (type %s)", s.Off, typeName(s.StructT), typeName(s.T)))
+	}
+	return out
+}
+
+func verifyFunctionOnce(ld *Loaded, sp *Specs, key string) (out *FuncVC) {
 	rep := &FuncReport{Key: key}
 	vc := newVC(key)
 	vc.sp = sp
@@ -59,6 +77,9 @@ func verifyFunction(ld *Loaded, sp *Specs, key string) (out *FuncVC) {
 	dualTypes = ld.dualStructTypes()
 	rep.Pos = x.pos(fn.Pos())
 	vc.theories["base"] = true
+	if len(fptrSites) > 0 {
+		vc.theories["fptr"] = true
+	}
 	for _, u := range ct.Uses {
 		vc.theories[u] = true
 	}
@@ -133,6 +154,9 @@ func verifyFunction(ld *Loaded, sp *Specs, key string) (out *FuncVC) {
 			penv.vars["err"] = e.res[rt.Len()-1]
 		}
 		for j, c := range ct.Ensures {
+			if c.CallSite {
+				continue
+			}
 			g := x.evalClause(penv, c)
 			vc.oblige("post", fmt.Sprintf("post[%d]@ret%d", j, k), e.reach, g, x.pos(e.pos), c.Src)
 		}
